@@ -55,7 +55,7 @@ pub fn mem_equals_snapshot() -> bool {
 #[cfg(kani)]
 pub fn on_panic(kind: u32, _line: u32) {
     unsafe {
-        kani::cover!(true, "COVER:panic-hook-reached");
+        kani::cover!(true, "COVER:panic-hook");
         assert!(kind < 32 && (ALLOW & bit(kind)) != 0, "OBL:panic.kind: an explicit panic of a kind this obligation does not allow was raised");
         assert!(JUSTIFIED, "OBL:panic.justified: the library refused although the obligation's acceptance condition holds");
         if NEED_NO_EVENTS {
